@@ -983,7 +983,10 @@ fn gen_spec(rng: &mut Prng, need_relin: bool) -> Option<ParamSpec> {
         tbits = rng.range(small.saturating_sub(2), small + 3).min(30);
     }
     let t = if scheme == CKKS { 0 } else { gen::find_prime(rng, factor, tbits, &q)? };
-    Some(ParamSpec { scheme, n, q, t, expand_chain: true, special_enc: false })
+    // one spec in eight leaves the modulus chain unexpanded (an ordinary option of HeContext::new):
+    // the only data level then has chain index 0 but all the data primes
+    let expand_chain = !rng.chance(1, 8);
+    Some(ParamSpec { scheme, n, q, t, expand_chain, special_enc: false })
 }
 
 fn gen_scn(rng: &mut Prng, run_seed: u64, max_n: usize) -> Option<Scn> {
